@@ -1,9 +1,9 @@
 use std::fs::File;
 
-use rusty_common::AtPos;
+use rusty_common::{AtPos, Position};
 use rusty_pc::*;
 
-use crate::error::ParseErrorPos;
+use crate::error::{ParseErrorPos, ParserError};
 use crate::input::{StringView, create_file_tokenizer, create_string_tokenizer};
 use crate::{Program, program_parser_p};
 
@@ -20,7 +20,9 @@ use crate::{Program, program_parser_p};
 /// <digit> ::= "0".."9"
 /// ```
 pub fn parse_main_file(f: File) -> Result<Program, ParseErrorPos> {
-    let mut reader = create_file_tokenizer(f).unwrap();
+    // e.g. the file is not valid UTF-8
+    let mut reader = create_file_tokenizer(f)
+        .map_err(|e| ParserError::DeviceIOError(e.to_string()).at_pos(Position::start()))?;
     program_parser(&mut reader)
 }
 
